@@ -247,6 +247,29 @@ theorem fs_convert_fails_like_scalar {db : Db} (hdb : db.AllWF) {cat fromU toU :
   · rw [convertFV_err hq he fv, he]
     simp
 
+/-- **the public classmethod `ConvertFractionValue` converts from `from_unit`, whatever unit the
+Quantity object passed to it is in** (only its category is used), so a direct call gives exactly what
+the instance route `FractionScalar(value, from_unit, category).GetValue(to_unit)` gives; the
+quantity-type-string form is the same conversion with the default category of `from_unit` -/
+theorem convertFractionValue_source_is_from_unit (db : Db) (c u1 u2 fromU toU : Sym) (fv : FV) (s : FS) (qt : Sym) :
+    convertFractionValue db (.quantity ⟨c, u1⟩) fromU toU fv = convertFractionValue db (.quantity ⟨c, u2⟩) fromU toU fv
+    ∧ convertFractionValue db (.quantity ⟨c, u1⟩) fromU toU fv = convertFV db c fromU toU fv
+    ∧ s.getValue db (some toU) = convertFractionValue db (.quantity ⟨s.q.cat, u1⟩) s.q.unit toU s.value
+    ∧ (∀ c', defaultCategory db fromU = some c' →
+        convertFractionValue db (.qtype qt) fromU toU fv = convertFV db c' fromU toU fv) := by
+  refine ⟨rfl, rfl, rfl, ?_⟩
+  intro c' h
+  simp [convertFractionValue, h]
+
+/-- hence the direct call denotes what a Scalar holding `float(value)` in `from_unit` converts to, up
+to `SMALL / denominator`, for every Quantity argument of that category -/
+theorem convertFractionValue_near {db : Db} (hdb : db.AllWF) {c uq fromU toU : Sym} {q : Qty}
+    (hq : obtain db c fromU = .ok q) (fv : FV) {y : Rat}
+    (hy : q.convertScalarValue db toU fv.value = .ok y) :
+    ∃ r, convertFractionValue db (.quantity ⟨c, uq⟩) fromU toU fv = .ok r
+      ∧ |r.value - y| ≤ small / (fv.frac.denominator : Rat) :=
+  fs_convert_near hdb hq fv hy
+
 /-- the shipped POSC table satisfies the hypothesis -/
 theorem posc_fs_convert_near {cat fromU toU : Sym} {q : Qty} (hq : obtain poscDb cat fromU = .ok q) (fv : FV)
     {y : Rat} (hy : q.convertScalarValue poscDb toU fv.value = .ok y) :
